@@ -330,7 +330,14 @@ def s7_cfg(repo_dir, S, F=None):
                                 depth -= toks[k][1] in (")", "]", "}") if toks[k][0] == "punct" else 0
                                 init.append(toks[k])
                                 k += 1
-                            foreign = [t2 for k2, t2, _ in init if not (k2 in ("num", "str", "char") or (k2 == "punct" and t2 in "+-*/().::,[]") or (k2 == "ident" and (t2 in CONST_OK_IDENT or t2 in consts_seen)))]
+                            def okc(q):
+                                k2, t2, _ = init[q]
+                                nxt = init[q + 1][1] if q + 1 < len(init) else ""
+                                if k2 in ("num", "str", "char") or (k2 == "punct" and t2 in "+-*/().::,[]{}:"):
+                                    return True
+                                # a struct literal of literals: `Sums { weighted: 0.0, flat: 0.0 }` (type name before `{`, field name before `:`)
+                                return k2 == "ident" and (t2 in CONST_OK_IDENT or t2 in consts_seen or nxt in ("{", ":"))
+                            foreign = [init[q][1] for q in range(len(init)) if not okc(q)]
                             n += 1
                             if foreign:
                                 bad(i, "const-initialiser", "const %s is initialised with `%s` (not literals): its value is whatever the build host computes" % (tk(i + 1), rustlex.text(init)[:60]))
